@@ -126,7 +126,7 @@ func TestVerif_C51(t *testing.T) {
 	defer r.Finish()
 	r.SetRule("for EVERY embedded rule (wildcard label made concrete, '!' removed): the rule, x.rule, x.y.rule, the rule without its leftmost label, the rule with its leftmost label replaced (sibling) and a child of that sibling, where x,y are PRNG labels (random LDH, labels occurring elsewhere in the list, or near-misses of the rule's own labels); plus PRNG names of 1-6 labels drawn from list labels / random labels. non-trivial = at least one rule other than the default matches; distinct by domain")
 	r.Assume("reference = publicsuffix.org formal algorithm re-implemented in the harness over the rule text of table_test.go (hash matcher, cross-checked against a literal linear scan on a sample)")
-	r.Assume("inputs are lower-case ASCII names without empty labels and not IP literals (the package leaves case and dot handling unspecified); names with empty labels are only given to EffectiveTLDPlusOne, which must refuse them")
+	r.Assume("inputs are lower-case ASCII names without empty labels and not IP literals in the rule-driven streams (the package leaves case and dot handling unspecified); for IP literals only the agreement of EffectiveTLDPlusOne with PublicSuffix is judged; names with empty labels are only given to EffectiveTLDPlusOne, which must refuse them")
 
 	ref := c51Build()
 	// pool of labels that occur in the list
@@ -332,6 +332,50 @@ func TestVerif_C51(t *testing.T) {
 		}
 		r.Event("empty_label_names_refused", 1)
 		r.Eval(true, "empty:", d)
+	})
+
+	// ---- IP address literals: only the relation between the two functions is judged ----
+	// (an address is not a domain, so the list algorithm says nothing about the suffix; the
+	// statement still ties EffectiveTLDPlusOne to whatever PublicSuffix selects)
+	r.Cases("ip-literals", r.N(2000, 50000), func(c *verifrt.Case) {
+		rng := c.Rng
+		oct := func() int { return []int{0, 1, 2, 10, 127, 192, 255, rng.IntN(256)}[rng.IntN(8)] }
+		v4 := fmt.Sprintf("%d.%d.%d.%d", oct(), oct(), oct(), oct())
+		h := func() string { return fmt.Sprintf("%x", rng.IntN(0x10000)) }
+		var d string
+		switch rng.IntN(6) {
+		case 0, 1:
+			d = v4
+		case 2:
+			d = "::ffff:" + v4
+		case 3:
+			d = h() + ":" + h() + "::" + v4
+		case 4:
+			d = h() + ":" + h() + "::" + h()
+		default:
+			d = "fe80::" + h() + "%" + randLabel(c, "") + "." + pool[rng.IntN(len(pool))]
+		}
+		c.Describe(map[string]any{"domain": d})
+		suffix, _ := PublicSuffix(d)
+		e, err := EffectiveTLDPlusOne(d)
+		switch {
+		case suffix == d:
+			if err == nil {
+				c.Violation("etld1-no-error-ip-literal", "PublicSuffix(%q) is the whole argument, so no eTLD+1 exists, but EffectiveTLDPlusOne returns %q, nil", d, e)
+			}
+			r.Event("ip_literal_etld1_error_expected", 1)
+		case strings.HasSuffix(d, "."+suffix):
+			rest := d[:len(d)-len(suffix)-1]
+			w := rest[strings.LastIndex(rest, ".")+1:] + "." + suffix
+			if err != nil || e != w {
+				c.Violation("etld1-not-suffix-plus-one-ip-literal", "PublicSuffix(%q)=%q but EffectiveTLDPlusOne=(%q,%v), want %q", d, suffix, e, err, w)
+			}
+			r.Event("ip_literal_etld1_value_checked", 1)
+		default:
+			c.Violation("suffix-not-a-suffix-ip-literal", "PublicSuffix(%q)=%q is not a dot-separated suffix of its argument", d, suffix)
+		}
+		r.Event("ip_literals", 1)
+		r.Eval(true, "ip:", d)
 	})
 
 	r.Sample(map[string]any{"domain": "www.ck", "reference": fmt.Sprint(ref.hashMatch([]string{"www", "ck"}).suffix), "got": fmt.Sprint(PublicSuffix("www.ck"))})
